@@ -157,7 +157,9 @@ def parseRegItem? (r : RegState) (s : String) : Option Item :=
     match e.toInt? with
     | none => none
     | some e =>
-      if el.startsWith "n:" then (parseRat? (el.drop 2).toString).map fun q => (Elem.num q, e)
+      -- `n:` Decimal when finite, `i:` a Python int, `f:` a Fraction: one exact value
+      if el.startsWith "n:" || el.startsWith "i:" || el.startsWith "f:" then
+        (parseRat? (el.drop 2).toString).map fun q => (Elem.num q, e)
       else if el.startsWith "c:" then (clsId? r (el.drop 2).toString).map fun c => (Elem.atom c, e)
       else if el.startsWith "u:" then (unitId? r (el.drop 2).toString).map fun u => (Elem.atom u, e)
       else none
